@@ -1,7 +1,9 @@
 package main
 
 import (
+	"bytes"
 	"fmt"
+	"io"
 	"reflect"
 	"sort"
 	"strings"
@@ -192,6 +194,22 @@ func robustOne(rc *RunCtx) *Violation {
 			case "ParseBytes":
 				return p.ParseBytes(filename, []byte(d))
 			default:
+				if simrt.Choose(4) == 1 {
+					// a standard-library reader the caller has already read a header from
+					const skipped = "#!header the caller consumed\n"
+					switch simrt.Choose(3) {
+					case 0:
+						sr := strings.NewReader(skipped + d)
+						io.CopyN(io.Discard, sr, int64(len(skipped)))
+						return p.Parse(filename, sr)
+					case 1:
+						br := bytes.NewReader([]byte(skipped + d))
+						io.CopyN(io.Discard, br, int64(len(skipped)))
+						return p.Parse(filename, br)
+					default:
+						return p.Parse(filename, io.NewSectionReader(strings.NewReader(skipped+d+"<<tail>>"), int64(len(skipped)), int64(len(d))))
+					}
+				}
 				rd = newSimReader(rc, d, tokenEnds(toks), readerOpts{allowError: subBatch != "faultfree" && simrt.Choose(6) == 1})
 				return p.Parse(filename, rd)
 			}
